@@ -27,6 +27,7 @@ type T struct {
 	Typ   types.Type
 	K     constant.Value // for const
 	Fn    *ssa.Function  // for fn/closure
+	G     *ssa.Global    // for global
 	Boxed bool           // a concrete value converted to an interface (MakeInterface): as an interface it is non-nil
 	s     string
 }
@@ -267,7 +268,7 @@ func Enumerate(fn *ssa.Function, opts SymOpts) ([]*Outcome, string) {
 		if opaque != nil && opaque(f) {
 			return false
 		}
-		return origInline(f) || isNewFunc(f)
+		return origInline(f) || isNewFunc(f) || isTransparentLib(f)
 	}
 	sy := &Sym{opts: opts}
 	st := &symState{env: map[ssa.Value]*T{}, mem: map[string]*T{}, ckey: map[string]bool{}, seq: map[string]int{}, visit: map[*ssa.BasicBlock]int{}}
@@ -338,7 +339,7 @@ func (sy *Sym) val(st *symState, v ssa.Value) *T {
 	case *ssa.Const:
 		return &T{Op: "const", K: x.Value, Typ: x.Type()}
 	case *ssa.Global:
-		return &T{Op: "global", Name: relPkg(x.Pkg.Pkg.Path()) + "." + x.Name(), Typ: x.Type(), s: "&" + relPkg(x.Pkg.Pkg.Path()) + "." + x.Name()}
+		return &T{Op: "global", Name: relPkg(x.Pkg.Pkg.Path()) + "." + x.Name(), Typ: x.Type(), G: x, s: "&" + relPkg(x.Pkg.Pkg.Path()) + "." + x.Name()}
 	case *ssa.Function:
 		return &T{Op: "fn", Name: fname(x), Fn: x, Typ: x.Type()}
 	case *ssa.Builtin:
@@ -414,9 +415,41 @@ func (sy *Sym) execFrom(fn *ssa.Function, b *ssa.BasicBlock, start int, st *symS
 		case *ssa.IndexAddr:
 			st.env[x] = &T{Op: "iaddr", Args: []*T{sy.val(st, x.X), sy.val(st, x.Index)}, Typ: x.Type()}
 		case *ssa.Index:
-			st.env[x] = &T{Op: "index", Args: []*T{sy.val(st, x.X), sy.val(st, x.Index)}, Typ: x.Type()}
+			base, idx := sy.val(st, x.X), sy.val(st, x.Index)
+			if ft := frozenGlobalOfTerm(base); ft != nil && !ft.IsMap {
+				xx := x
+				sy.frozenSelect(ft, idx, st, func(s *symState, v *T) {
+					s.env[xx] = v
+					sy.execFrom(fn, b, i+1, s, depth, k)
+				}, func(s *symState) {
+					s.env[xx] = zeroTerm(ft.ElemTyp, nil) // in range (the bounds check passed) but not listed in the literal
+					sy.execFrom(fn, b, i+1, s, depth, k)
+				})
+				return
+			}
+			st.env[x] = &T{Op: "index", Args: []*T{base, idx}, Typ: x.Type()}
 		case *ssa.Lookup:
 			m, key := sy.val(st, x.X), sy.val(st, x.Index)
+			if ft := frozenGlobalOfTerm(m); ft != nil && ft.IsMap {
+				xx := x
+				sy.frozenSelect(ft, key, st, func(s *symState, v *T) {
+					if xx.CommaOk {
+						s.env[xx] = &T{Op: "tuple", Args: []*T{v, {Op: "const", K: constant.MakeBool(true), Typ: types.Typ[types.Bool]}}}
+					} else {
+						s.env[xx] = v
+					}
+					sy.execFrom(fn, b, i+1, s, depth, k)
+				}, func(s *symState) {
+					z := zeroTerm(ft.ElemTyp, nil)
+					if xx.CommaOk {
+						s.env[xx] = &T{Op: "tuple", Args: []*T{z, {Op: "const", K: constant.MakeBool(false), Typ: types.Typ[types.Bool]}}}
+					} else {
+						s.env[xx] = z
+					}
+					sy.execFrom(fn, b, i+1, s, depth, k)
+				})
+				return
+			}
 			if v, ok := st.mem[m.String()+"["+key.String()+"]"]; ok && !x.CommaOk {
 				st.env[x] = v
 			} else {
@@ -450,6 +483,19 @@ func (sy *Sym) execFrom(fn *ssa.Function, b *ssa.BasicBlock, start int, st *symS
 			a := sy.val(st, x.X)
 			switch x.Op {
 			case token.MUL:
+				if a.Op == "iaddr" && len(a.Args) == 2 {
+					if ft := frozenGlobalOfTerm(a.Args[0]); ft != nil && !ft.IsMap {
+						xx := x
+						sy.frozenSelect(ft, a.Args[1], st, func(s *symState, v *T) {
+							s.env[xx] = v
+							sy.execFrom(fn, b, i+1, s, depth, k)
+						}, func(s *symState) {
+							s.env[xx] = zeroTerm(ft.ElemTyp, nil)
+							sy.execFrom(fn, b, i+1, s, depth, k)
+						})
+						return
+					}
+				}
 				if v, ok := st.mem[a.String()]; ok {
 					st.env[x] = v
 				} else if v := loadFromAggregate(st, a, x.Type()); v != nil {
@@ -741,34 +787,42 @@ func strLenTest(op token.Token, x, y *T, typ types.Type) *T {
 }
 
 func (sy *Sym) execIf(fn *ssa.Function, b *ssa.BasicBlock, x *ssa.If, st *symState, depth int, k contFn) {
-	c := sy.val(st, x.Cond)
+	sy.branchOn(sy.val(st, x.Cond), st,
+		func(s *symState) { sy.execBlock(fn, b.Succs[0], b, s, depth, k) },
+		func(s *symState) { sy.execBlock(fn, b.Succs[1], b, s, depth, k) })
+}
+
+// branchOn continues with yes / no according to the condition c: decided at
+// once when c is constant, already decided on this path or fixed by Assume;
+// otherwise both ways on cloned states with the condition recorded.
+func (sy *Sym) branchOn(c *T, st *symState, yes, no func(s *symState)) {
 	pol := true
 	for c.Op == "un" && c.Name == "!" {
 		c = c.Args[0]
 		pol = !pol
 	}
-	if c.Op == "const" && c.K != nil && c.K.Kind() == constant.Bool {
-		v := constant.BoolVal(c.K) == pol
-		if v {
-			sy.execBlock(fn, b.Succs[0], b, st, depth, k)
+	pick := func(v bool, s *symState) {
+		if v == pol {
+			yes(s)
 		} else {
-			sy.execBlock(fn, b.Succs[1], b, st, depth, k)
+			no(s)
 		}
+	}
+	if c.Op == "const" && c.K != nil && c.K.Kind() == constant.Bool {
+		pick(constant.BoolVal(c.K), st)
 		return
 	}
 	key := c.String()
 	if sy.opts.Assume != nil {
 		if v, ok := sy.opts.Assume(c); ok {
-			st.ckey[key] = v
-			st.conds = append(st.conds, Cond{c, v})
+			if _, seen := st.ckey[key]; !seen {
+				st.ckey[key] = v
+				st.conds = append(st.conds, Cond{c, v})
+			}
 		}
 	}
 	if v, ok := st.ckey[key]; ok {
-		if v == pol {
-			sy.execBlock(fn, b.Succs[0], b, st, depth, k)
-		} else {
-			sy.execBlock(fn, b.Succs[1], b, st, depth, k)
-		}
+		pick(v, st)
 		return
 	}
 	for _, v := range []bool{true, false} {
@@ -778,12 +832,35 @@ func (sy *Sym) execIf(fn *ssa.Function, b *ssa.BasicBlock, x *ssa.If, st *symSta
 		s2 := st.clone()
 		s2.ckey[key] = v
 		s2.conds = append(s2.conds, Cond{c, v})
-		succ := b.Succs[0]
-		if v != pol {
-			succ = b.Succs[1]
-		}
-		sy.execBlock(fn, succ, b, s2, depth, k)
+		pick(v, s2)
 	}
+}
+
+// frozenSelect continues with the element of a frozen table selected by key:
+// one branch per entry under key == K, then the absent branch — the chain of
+// comparisons a switch over the same constants compiles to.
+func (sy *Sym) frozenSelect(ft *FrozenTable, key *T, st *symState, found func(s *symState, v *T), absent func(s *symState)) {
+	if key.Op == "const" {
+		for _, e := range ft.Entries {
+			if constKeyEqual(e.Key, key.K) {
+				found(st, frozenValTerm(e.Val, ft.ElemTyp))
+				return
+			}
+		}
+		absent(st)
+		return
+	}
+	var step func(i int, s *symState)
+	step = func(i int, s *symState) {
+		if i >= len(ft.Entries) {
+			absent(s)
+			return
+		}
+		e := ft.Entries[i]
+		c := binT(token.EQL, key, &T{Op: "const", K: e.Key, Typ: key.Typ}, types.Typ[types.Bool])
+		sy.branchOn(c, s, func(s2 *symState) { found(s2, frozenValTerm(e.Val, ft.ElemTyp)) }, func(s2 *symState) { step(i+1, s2) })
+	}
+	step(0, st)
 }
 
 // consistent prunes cubes that cannot be satisfied: x == K1 ∧ x == K2 for
@@ -827,6 +904,11 @@ func (sy *Sym) callName(st *symState, cc *ssa.CallCommon) (string, *ssa.Function
 		return "builtin:" + bi.Name(), nil, args, nil
 	}
 	fv := sy.val(st, cc.Value)
+	if fv.Op == "fn" && fv.Fn != nil && fv.Fn.Object() != nil {
+		// a declared function reached through a function value (e.g. taken from a
+		// frozen table): the same call as the static one
+		return funcCallName(fv.Fn), fv.Fn, args, nil
+	}
 	if (fv.Op == "closure" || fv.Op == "fn") && fv.Fn != nil {
 		return "closure:" + fv.Name, fv.Fn, args, fv.Args
 	}
@@ -835,8 +917,14 @@ func (sy *Sym) callName(st *symState, cc *ssa.CallCommon) (string, *ssa.Function
 
 func (sy *Sym) execCall(fn *ssa.Function, b *ssa.BasicBlock, i int, x *ssa.Call, st *symState, depth int, k contFn) {
 	name, callee, args, bindings := sy.callName(st, &x.Call)
-	if callee != nil && (depth < sy.opts.MaxDepth || (depth < sy.opts.MaxDepth+4 && isNewFunc(callee))) && sy.opts.Inline(callee) && len(callee.Blocks) > 0 {
-		sy.execFn(callee, args, bindings, st, depth+1, func(kind, why string, res []*T, s *symState, pos token.Pos) {
+	// the predicate literal handed to a library search helper is part of the caller's code
+	litInLib := callee != nil && isTransparentLib(fn) && callee.Parent() != nil && len(callee.Blocks) > 0 && depth < sy.opts.MaxDepth+4
+	if litInLib || (callee != nil && (depth < sy.opts.MaxDepth || (depth < sy.opts.MaxDepth+4 && (isNewFunc(callee) || isTransparentLib(callee)))) && sy.opts.Inline(callee) && len(callee.Blocks) > 0) {
+		nd := depth + 1
+		if isTransparentLib(callee) {
+			nd = depth // looking through a library search helper does not use up inlining depth
+		}
+		sy.execFn(callee, args, bindings, st, nd, func(kind, why string, res []*T, s *symState, pos token.Pos) {
 			switch kind {
 			case "return":
 				switch len(res) {
@@ -852,6 +940,17 @@ func (sy *Sym) execCall(fn *ssa.Function, b *ssa.BasicBlock, i int, x *ssa.Call,
 			}
 		})
 		return
+	}
+	if (name == "builtin:len" || name == "builtin:cap") && len(args) == 1 {
+		if ft := frozenGlobalOfTerm(args[0]); ft != nil {
+			n := ft.Len
+			if ft.IsMap {
+				n = len(ft.Entries)
+			}
+			st.env[x] = &T{Op: "const", K: constant.MakeInt64(int64(n)), Typ: types.Typ[types.Int]}
+			sy.execFrom(fn, b, i+1, st, depth, k)
+			return
+		}
 	}
 	t := &T{Op: "call", Name: name, Args: args, Typ: x.Type()}
 	if sy.opts.NoReturn != nil && sy.opts.NoReturn(name) {
@@ -895,7 +994,7 @@ func (sy *Sym) runDefers(fn *ssa.Function, b *ssa.BasicBlock, i int, st *symStat
 		}
 		d := defers[j]
 		name, callee, args, bindings := sy.callName(s, &d.Call)
-		if callee != nil && (depth < sy.opts.MaxDepth || (depth < sy.opts.MaxDepth+4 && isNewFunc(callee))) && sy.opts.Inline(callee) && len(callee.Blocks) > 0 {
+		if callee != nil && (depth < sy.opts.MaxDepth || (depth < sy.opts.MaxDepth+4 && (isNewFunc(callee) || isTransparentLib(callee)))) && sy.opts.Inline(callee) && len(callee.Blocks) > 0 {
 			sy.execFn(callee, args, bindings, s, depth+1, func(kind, why string, res []*T, s2 *symState, pos token.Pos) {
 				if kind == "return" {
 					run(j-1, s2)
